@@ -19,6 +19,13 @@ def _qual(t):
     return f"{t.__module__}.{t.__qualname__}"
 
 
+def _set_order(xs):
+    """Deterministic visiting order for a set: graph objects by uid first, then the rest by repr."""
+    objs = sorted((y for y in xs if hasattr(y, "uid")), key=lambda y: y.uid)
+    rest = sorted((y for y in xs if not hasattr(y, "uid")), key=repr)
+    return objs + rest
+
+
 def canonical(root):
     from edgegraph.structure.base import BaseObject
 
@@ -40,7 +47,7 @@ def canonical(root):
         if isinstance(x, tuple):
             return ("tuple", tuple(val(y, depth + 1) for y in x))
         if isinstance(x, frozenset):
-            return ("frozenset", tuple(sorted(repr(val(y, depth + 1)) for y in x)))
+            return ("frozenset", tuple(sorted(repr(val(y, depth + 1)) for y in _set_order(x))))
         if isinstance(x, float):
             if math.isnan(x):
                 return ("float", "nan")
@@ -72,7 +79,7 @@ def canonical(root):
         elif isinstance(o, dict):
             form.append(("dict", tuple((val(k), val(v)) for k, v in o.items())))
         else:
-            form.append(("set", tuple(sorted(repr(val(y)) for y in o))))
+            form.append(("set", tuple(sorted(repr(val(y)) for y in _set_order(o)))))
     return (form_root, tuple(form)), order
 
 
